@@ -141,14 +141,21 @@ func (p *parser) parseMessageText() (dataItem ast.ItemNode, ok bool) {
 	}
 	p.pos += lengthBytesCount
 
+	if length > len(p.input)-p.pos {
+		// Declared length exceeds the remaining input; a list item needs
+		// at least one byte per element, other items one byte per length unit
+		return ast.NewEmptyItemNode(), false
+	}
+
 	switch formatCode {
 	case formatCodeList:
-		values := make([]interface{}, length)
+		values := []interface{}{}
 		for i := 0; i < length; i++ {
-			values[i], ok = p.parseMessageText()
+			value, ok := p.parseMessageText()
 			if !ok {
 				return ast.NewEmptyItemNode(), false
 			}
+			values = append(values, value)
 		}
 		return ast.NewListNode(values...), true
 
